@@ -261,4 +261,1377 @@ theorem serialize_molecule_repeat (env : DepEnv) (fuel : Nat) {m : Graph} (hm : 
   have e := serialize_molecule_frame_eq env fuel hm h
   rw [e, serialize_molecule_scalar, ← e]; exact h
 
+/-! ## `_labels_by_partition` -/
+
+/-- a `for` loop without `break`/`continue`/exceptions is a fold -/
+theorem forIn_eq_foldl {σ α : Type} (body : α → σ → M (ForInStep σ)) (step : α → σ → σ) (P : σ → Prop)
+    (l : List α) (s : σ)
+    (h : ∀ a ∈ l, ∀ s, P s → body a s = .ok (.yield (step a s)) ∧ P (step a s)) (hs : P s) :
+    forIn l s body = .ok (l.foldl (fun s a => step a s) s) := by
+  induction l generalizing s with
+  | nil => rfl
+  | cons a l ih =>
+    obtain ⟨h1, h2⟩ := h a (by simp) s hs
+    rw [List.forIn_cons, h1]
+    simp only [ok_bind, List.foldl_cons]
+    exact ih _ (fun b hb => h b (by simp [hb])) h2
+
+/-- partition class of a node (`None` if the attribute is missing) -/
+abbrev cls (m : Graph) (a : Int) : Val := attrV m "partition" a
+/-- the nodes of a class, in node iteration order -/
+def classNodes (m : Graph) (p : Val) : List Int := m.nodeList.filter (fun a => decide (cls m a = p))
+
+theorem nodesDataKey_snd {m : Graph} (hm : m.node.WF) (k : String) :
+    List.filterMap (fun x => some x.2) (m.nodesDataKey k) = m.nodeList.map (attrV m k) := by
+  rw [Contracts.Partition.filterMap_some]
+  unfold nodesDataKey nodeList Dict.keys
+  simp only [List.map_map]
+  apply List.map_congr_left
+  intro p hp
+  have : m.node.get? p.1 = some p.2 := Dict.get?_of_mem_items hm (by simpa using hp)
+  simp [attrV, Graph.attr, this]
+
+theorem lbp_fold (c : Int → Val) (l : List Int) (d : Dict Val (List Int)) (hk : ∀ a ∈ l, c a ∈ d.keys) :
+    (l.foldl (fun d a => d.set (c a) ((d.get? (c a)).getD [] ++ [a])) d).keys = d.keys ∧
+    ∀ p, (l.foldl (fun d a => d.set (c a) ((d.get? (c a)).getD [] ++ [a])) d).get? p =
+      (d.get? p).map (· ++ l.filter (fun a => decide (c a = p))) := by
+  induction l generalizing d with
+  | nil => simp
+  | cons a l ih =>
+    have ha := hk a (by simp)
+    obtain ⟨old, hold⟩ := Dict.exists_get?_of_mem_keys ha
+    have hk1 : (d.set (c a) ((d.get? (c a)).getD [] ++ [a])).keys = d.keys := Dict.keys_set_of_mem _ _ ha
+    obtain ⟨ih1, ih2⟩ := ih (d.set (c a) ((d.get? (c a)).getD [] ++ [a]))
+      (fun b hb => by rw [hk1]; exact hk b (by simp [hb]))
+    simp only [List.foldl_cons]
+    refine ⟨ih1.trans hk1, fun p => ?_⟩
+    rw [ih2, Dict.get?_set]
+    by_cases hp : p = c a
+    · subst hp; simp [hold]
+    · have : ¬ c a = p := fun e => hp e.symm
+      simp [hp, this]
+
+theorem getItem_valdict {ν : Type} (d : Dict Val ν) (k : Val) :
+    (getItem d k : M ν) = match d.get? k with | some v => .ok v | Option.none => .error Err.key := by
+  cases h : d.get? k <;> simp [getItem, GetItem.getItem, toKey, ToKey.toKey, h]
+
+theorem labels_by_partition_ok (env : DepEnv) (hs : env.SetLawful) {m : Graph} (hm : m.node.WF)
+    (hc : Carries m "partition") :
+    ∃ d, Tucan.serialization._labels_by_partition env m = .ok d ∧ d.WF ∧
+      (∀ p, p ∈ d.keys ↔ ∃ a ∈ m.nodeList, cls m a = p) ∧
+      (∀ p ∈ d.keys, d.get? p = some (sortedRev (classNodes m p))) := by
+  unfold Tucan.serialization._labels_by_partition
+  rw [listComp_ok _ _ (fun x => some x.2)]
+  swap
+  · rintro ⟨k, v⟩ _; rfl
+  simp only [ok_bind]
+  rw [listComp_ok _ _ (fun p => some (p, ([] : List Int)))]
+  swap
+  · intro p _; rfl
+  simp only [ok_bind, pyIter_list, nodesDataKey_snd hm, Contracts.Partition.filterMap_some, pyIter_graph]
+  -- the set of classes, in the (arbitrary) iteration order of the `set`
+  have hperm := hs (mkSet (sorted (m.nodeList.map (attrV m "partition")))).elems
+  generalize env.setOrder (mkSet (sorted (m.nodeList.map (attrV m "partition")))).elems = ord at hperm ⊢
+  have hmem : ∀ p, p ∈ ord ↔ ∃ a ∈ m.nodeList, cls m a = p := by
+    intro p
+    rw [hperm.mem_iff]
+    simp [mkSet]
+  have hnd : ord.Nodup := hperm.nodup_iff.2 (List.nodup_dedup _)
+  have hkeys0 : ((ord.map (fun p => (p, ([] : List Int)))).map Prod.fst) = ord := by
+    simp [List.map_map, Function.comp_def]
+  have hd0 : Dict.ofPairs (ord.map (fun p => (p, ([] : List Int)))) = ⟨ord.map (fun p => (p, ([] : List Int)))⟩ :=
+    Dict.ofPairs_of_nodup _ (by rw [hkeys0]; exact hnd)
+  rw [hd0]
+  generalize hd : (⟨ord.map (fun p => (p, ([] : List Int)))⟩ : Dict Val (List Int)) = d0
+  have hk0 : d0.keys = ord := by rw [← hd]; exact hkeys0
+  have hg0 : ∀ p ∈ ord, d0.get? p = some [] := by
+    intro p hp
+    rw [← hd]
+    exact Dict.get?_of_mem_items (by rw [Dict.WF, Dict.keys_mk, hkeys0]; exact hnd) (List.mem_map.2 ⟨p, hp, rfl⟩)
+  rw [forIn_eq_foldl _ (fun a d => d.set (cls m a) ((d.get? (cls m a)).getD [] ++ [a]))
+    (fun d => ∀ a ∈ m.nodeList, cls m a ∈ d.keys)]
+  rotate_left
+  · intro a ha d hP
+    obtain ⟨x, hx1, hx2⟩ := Contracts.Partition.nodeAttrs_getItem m a "partition" (hc a ha)
+    obtain ⟨old, hold⟩ := Dict.exists_get?_of_mem_keys (hP a ha)
+    simp only [hx1, hx2, ok_bind, getItem_valdict, hold, setItem_dict, pyAdd_list, pure_eq_ok, Option.getD_some,
+      true_and]
+    intro b hb
+    rw [Dict.mem_keys_set]; exact Or.inr (hP b hb)
+  · intro a ha; rw [hk0, hmem]; exact ⟨a, ha, rfl⟩
+  simp only [ok_bind]
+  rw [listComp_ok _ _ (fun x => some (x.1, sortedRev x.2))]
+  swap
+  · intro p _; rfl
+  simp only [ok_bind, Contracts.Partition.filterMap_some, pure_eq_ok]
+  obtain ⟨f1, f2⟩ := lbp_fold (cls m) m.nodeList d0 (fun a ha => by rw [hk0, hmem]; exact ⟨a, ha, rfl⟩)
+  generalize (m.nodeList.foldl (fun d a => d.set (cls m a) ((d.get? (cls m a)).getD [] ++ [a])) d0) = d1 at f1 f2 ⊢
+  have hwf1 : d1.WF := by rw [Dict.WF, f1, hk0]; exact hnd
+  have hk2 : (d1.updatePairs (d1.items.map (fun x => (x.1, sortedRev x.2)))).keys = ord := by
+    rw [Dict.keys_updatePairs_of_subset, f1, hk0]
+    intro p hp
+    obtain ⟨q, hq, rfl⟩ := List.mem_map.1 hp
+    exact List.mem_map.2 ⟨q, hq, rfl⟩
+  refine ⟨_, rfl, ?_, ?_, ?_⟩
+  · rw [Dict.WF, hk2]; exact hnd
+  · intro p; rw [hk2]; exact hmem p
+  · intro p hp
+    rw [hk2] at hp
+    rw [Dict.get?_updatePairs_of_nodup, lookup_map_snd d1.items (fun _ v => sortedRev v) p]
+    · show (Option.map sortedRev (d1.get? p)).or _ = _
+      rw [f2, hg0 p hp]
+      simp [classNodes]
+    · simp only [List.map_map, Function.comp_def]; exact hwf1
+
+/-! ## list helpers for the termination measure -/
+
+theorem sum_map_filter_mono {α : Type} (f : α → Nat) (p q : α → Bool) (l : List α)
+    (h : ∀ x ∈ l, p x = true → q x = true) : ((l.filter p).map f).sum ≤ ((l.filter q).map f).sum := by
+  induction l with
+  | nil => simp
+  | cons b l ih =>
+    have ih' := ih (fun x hx => h x (by simp [hx]))
+    have hb := h b (by simp)
+    simp only [List.filter_cons]
+    by_cases hp : p b = true
+    · simp [hp, hb hp, ih']
+    · by_cases hq : q b = true
+      · simp [hp, hq]; omega
+      · simp [hp, hq, ih']
+
+theorem sum_map_filter_remove {α : Type} (f : α → Nat) (p q : α → Bool) (l : List α) (a : α) (ha : a ∈ l)
+    (hqa : q a = true) (h : ∀ x ∈ l, p x = true → q x = true ∧ x ≠ a) :
+    ((l.filter p).map f).sum + f a ≤ ((l.filter q).map f).sum := by
+  induction l with
+  | nil => simp at ha
+  | cons b l ih =>
+    have hb := h b (by simp)
+    simp only [List.filter_cons]
+    by_cases hab : a = b
+    · subst hab
+      have hp : ¬ p a = true := fun hp => (hb hp).2 rfl
+      have := sum_map_filter_mono f p q l (fun x hx hpx => (h x (by simp [hx]) hpx).1)
+      simp [hp, hqa]; omega
+    · have ha' : a ∈ l := by simpa [hab] using ha
+      have ih' := ih ha' (fun x hx => h x (by simp [hx]))
+      by_cases hp : p b = true
+      · simp [hp, (hb hp).1]; omega
+      · by_cases hq : q b = true
+        · simp [hp, hq]; omega
+        · simp [hp, hq]; omega
+
+theorem length_filter_lt {α : Type} (p q : α → Bool) (l : List α) (a : α) (ha : a ∈ l)
+    (hqa : q a = true) (h : ∀ x ∈ l, p x = true → q x = true ∧ x ≠ a) :
+    (l.filter p).length < (l.filter q).length := by
+  have := sum_map_filter_remove (fun _ => 1) p q l a ha hqa h
+  simp only [List.map_const', List.sum_replicate, smul_eq_mul, mul_one] at this
+  omega
+
+theorem sum_map_succ {α : Type} (f : α → Nat) (l : List α) :
+    (l.map (fun u => f u + 1)).sum = (l.map f).sum + l.length := by
+  induction l with
+  | nil => rfl
+  | cons a l ih => simp [ih]; omega
+
+/-! ## the state invariant of the traversal -/
+
+/-- still unexplored nodes, in node iteration order -/
+def unexp (m : Graph) (fl : Dict Int Int) : List Int := m.nodeList.filter (fun a => decide (a ∉ fl.keys))
+/-- termination weight of the unexplored nodes: each may still push its neighbours and be popped once -/
+def wgt (m : Graph) (fl : Dict Int Int) : Nat := ((unexp m fl).map (fun u => (m.nbrs u).length + 1)).sum
+
+/-- `g`, `d`, `fl` = current values of `m`, `labels_by_partition`, `final_labels`, relative to the
+graph `m` the function was called with -/
+structure Good (m g : Graph) (d : Dict Val (List Int)) (fl : Dict Int Int) : Prop where
+  wf : g.WF
+  clear : clearExplored g = clearExplored m
+  /-- I1 -/
+  expl : ∀ a ∈ m.nodeList, g.attr a "explored" = some (Val.bool (decide (a ∈ fl.keys)))
+  fl_wf : fl.WF
+  fl_sub : ∀ a ∈ fl.keys, a ∈ m.nodeList
+  d_keys : ∀ a ∈ m.nodeList, cls m a ∈ d.keys
+  /-- I2, in the strong form needed for the bijection: the labels still available in a class together with
+  those already handed out to nodes of the class are exactly the nodes of the class -/
+  d_perm : ∀ p l, d.get? p = some l →
+    (l ++ (fl.items.filter (fun q => decide (cls m q.1 = p))).map Prod.snd).Perm (classNodes m p)
+
+namespace Good
+variable {m g : Graph} {d : Dict Val (List Int)} {fl : Dict Int Int}
+
+theorem nodeList_eq (h : Good m g d fl) : g.nodeList = m.nodeList := by
+  have h' : g.setNodeAttrScalar (Val.bool false) "explored" = m.setNodeAttrScalar (Val.bool false) "explored" := h.clear
+  rw [← nodeList_setNodeAttrScalar g (Val.bool false) "explored", h', nodeList_setNodeAttrScalar]
+
+theorem adj_eq (h : Good m g d fl) : g.adj = m.adj := by
+  have h' : g.setNodeAttrScalar (Val.bool false) "explored" = m.setNodeAttrScalar (Val.bool false) "explored" := h.clear
+  have := congrArg Graph.adj h'
+  simpa only [adj_setNodeAttrScalar] using this
+
+theorem nbrs_eq (h : Good m g d fl) (a : Int) : g.nbrs a = m.nbrs a := by unfold Graph.nbrs; rw [h.adj_eq]
+
+theorem attr_eq (h : Good m g d fl) (a : Int) {k : String} (hk : k ≠ "explored") : g.attr a k = m.attr a k := by
+  have h' : g.setNodeAttrScalar (Val.bool false) "explored" = m.setNodeAttrScalar (Val.bool false) "explored" := h.clear
+  have := congrArg (fun x => Graph.attr x a k) h'
+  simpa only [attr_setNodeAttrScalar, if_neg hk] using this
+
+theorem cls_eq (h : Good m g d fl) (a : Int) : cls g a = cls m a := by
+  unfold cls attrV; rw [h.attr_eq a (by decide)]
+
+theorem mwf (h : Good m g d fl) : m.node.WF := by
+  show m.nodeList.Nodup
+  rw [← h.nodeList_eq]; exact h.wf.node_wf
+
+theorem keys_filter (fl : Dict Int Int) (P : Int → Bool) :
+    (fl.items.filter (fun q => P q.1)).map Prod.fst = fl.keys.filter P := by
+  unfold Dict.keys
+  rw [List.filter_map]; rfl
+
+/-- `.pop()` succeeds (I2) and the invariant is re-established after exploring `a` -/
+theorem explore (h : Good m g d fl) {a : Int} (ha : a ∈ m.nodeList) (hna : a ∉ fl.keys) {l : List Int}
+    (hl : d.get? (cls m a) = some l) :
+    ∃ hne : l ≠ [], Good m (g.modNode a (fun x => x.set "explored" (Val.bool true)))
+      (d.set (cls m a) l.dropLast) (fl.set a (l.getLast hne)) := by
+  have hne : l ≠ [] := by
+    rintro rfl
+    have hp := h.d_perm _ _ hl
+    simp only [List.nil_append] at hp
+    have hlen := hp.length_eq
+    rw [List.length_map, ← List.length_map (f := Prod.fst), keys_filter fl (fun x => decide (cls m x = cls m a))] at hlen
+    have hsub : fl.keys.filter (fun x => decide (cls m x = cls m a)) ⊆ (classNodes m (cls m a)).erase a := by
+      intro x hx
+      rw [List.mem_filter] at hx
+      have hxa : x ≠ a := fun e => hna (e ▸ hx.1)
+      refine (List.mem_erase_of_ne hxa).2 ?_
+      exact List.mem_filter.2 ⟨h.fl_sub x hx.1, hx.2⟩
+    have hnd : (fl.keys.filter (fun x => decide (cls m x = cls m a))).Nodup := h.fl_wf.filter _
+    have h1 := (hnd.subperm hsub).length_le
+    have hac : a ∈ classNodes m (cls m a) := List.mem_filter.2 ⟨ha, by simp⟩
+    rw [List.length_erase_of_mem hac] at h1
+    have : 0 < (classNodes m (cls m a)).length := List.length_pos_of_mem hac
+    omega
+  refine ⟨hne, ?_⟩
+  have hitems : (fl.set a (l.getLast hne)).items = fl.items ++ [(a, l.getLast hne)] := Dict.items_set_of_not_mem _ _ hna
+  have hsplit : l = l.dropLast ++ [l.getLast hne] := (List.dropLast_append_getLast hne).symm
+  refine ⟨?_, ?_, ?_, ?_, ?_, ?_, ?_⟩
+  · exact WF_modNode h.wf a (fun x hx => Dict.WF_set hx _ _)
+  · rw [clearExplored, scalar_modNode h.wf.node_wf]; exact h.clear
+  · intro b hb
+    unfold Graph.attr
+    rw [node_get?_modNode]
+    by_cases hba : b = a
+    · subst hba
+      rw [if_pos rfl]
+      obtain ⟨x, hx⟩ := Dict.exists_get?_of_mem_keys (show b ∈ g.nodeList by rw [h.nodeList_eq]; exact hb)
+      have : b ∈ (fl.set b (l.getLast hne)).keys := (Dict.mem_keys_set _ _ _ _).2 (Or.inl rfl)
+      simp [hx, this]
+    · rw [if_neg hba]
+      have e : (b ∈ (fl.set a (l.getLast hne)).keys) ↔ b ∈ fl.keys := by
+        rw [Dict.mem_keys_set]; simp [hba]
+      have := h.expl b hb
+      unfold Graph.attr at this
+      rw [this]; simp [e]
+  · exact Dict.WF_set h.fl_wf _ _
+  · intro b hb
+    rcases (Dict.mem_keys_set _ _ _ _).1 hb with rfl | hb
+    · exact ha
+    · exact h.fl_sub b hb
+  · intro b hb
+    rw [Dict.mem_keys_set]; exact Or.inr (h.d_keys b hb)
+  · intro p l' hl'
+    rw [Dict.get?_set] at hl'
+    rw [hitems, List.filter_append, List.map_append]
+    by_cases hp : p = cls m a
+    · subst hp
+      rw [if_pos rfl] at hl'
+      simp only [Option.some.injEq] at hl'
+      subst hl'
+      have hp0 := h.d_perm _ _ hl
+      have : (List.filter (fun q : Int × Int => decide (cls m q.1 = cls m a)) [(a, l.getLast hne)]) = [(a, l.getLast hne)] := by
+        simp
+      rw [this]
+      simp only [List.map_cons, List.map_nil]
+      refine List.Perm.trans ?_ hp0
+      conv_rhs => rw [hsplit]
+      simp only [List.append_assoc]
+      refine List.Perm.append_left _ ?_
+      exact List.perm_append_comm
+    · rw [if_neg hp] at hl'
+      have : (List.filter (fun q : Int × Int => decide (cls m q.1 = p)) [(a, l.getLast hne)]) = [] := by
+        have : ¬ cls m a = p := fun e => hp e.symm
+        simp [this]
+      rw [this]
+      simpa using h.d_perm _ _ hl'
+
+end Good
+
+theorem mem_keys_set_mono {fl : Dict Int Int} (a x b : Int) (hb : b ∈ fl.keys) : b ∈ (fl.set a x).keys :=
+  (Dict.mem_keys_set _ _ _ _).2 (Or.inr hb)
+
+theorem wgt_set (m : Graph) (fl : Dict Int Int) {a : Int} (x : Int) (ha : a ∈ m.nodeList) (hna : a ∉ fl.keys) :
+    wgt m (fl.set a x) + ((m.nbrs a).length + 1) ≤ wgt m fl := by
+  unfold wgt unexp
+  refine sum_map_filter_remove _ _ _ _ a ha (by simpa using hna) (fun b _ hb => ?_)
+  simp only [decide_eq_true_eq, Dict.mem_keys_set, not_or] at hb ⊢
+  exact ⟨hb.2, hb.1⟩
+
+theorem wgt_le (m : Graph) (fl : Dict Int Int) :
+    wgt m fl ≤ m.nodeList.length + (m.nodeList.map (fun u => (m.nbrs u).length)).sum := by
+  unfold wgt unexp
+  have := sum_map_filter_mono (fun u => (m.nbrs u).length + 1) (fun a => decide (a ∉ fl.keys)) (fun _ => true)
+    m.nodeList (fun _ _ _ => rfl)
+  rw [List.filter_true, sum_map_succ _ m.nodeList] at this
+  omega
+
+theorem unexp_lt (m : Graph) {fl0 fl : Dict Int Int} (hmono : ∀ a ∈ fl0.keys, a ∈ fl.keys) {u : Int}
+    (hu : u ∈ m.nodeList) (hu0 : u ∉ fl0.keys) (hu1 : u ∈ fl.keys) : (unexp m fl).length < (unexp m fl0).length := by
+  unfold unexp
+  refine length_filter_lt _ _ _ u hu (by simpa using hu0) (fun b _ hb => ?_)
+  simp only [decide_eq_true_eq] at hb ⊢
+  exact ⟨fun h => hb (hmono b h), fun e => hb (e ▸ hu1)⟩
+
+/-! ## the three traversal priorities split the neighbours -/
+
+theorem prio_split (c : Val) (cs : Int → Val) (nb : List Int) :
+    (nb.filter (fun n => pyEq c (cs n))).length + (nb.filter (fun n => pyGt c (cs n))).length +
+      (nb.filter (fun n => pyLt c (cs n))).length = nb.length := by
+  induction nb with
+  | nil => rfl
+  | cons n nb ih =>
+    have e1 : pyEq c (cs n) = decide (c = cs n) := rfl
+    have e2 : pyGt c (cs n) = POrd.lt (cs n) c := rfl
+    have e3 : pyLt c (cs n) = POrd.lt c (cs n) := rfl
+    simp only [List.filter_cons, e1, e2, e3]
+    rcases LawfulPOrd.lt_trichotomy c (cs n) with h | h | h
+    · have h' := LawfulPOrd.asymm h
+      have hne : c ≠ cs n := LawfulPOrd.ne_of_lt h
+      simp [h, h', hne] at ih ⊢; omega
+    · have h1 : POrd.lt c (cs n) = false := h ▸ LawfulPOrd.irrefl c
+      have h2 : POrd.lt (cs n) c = false := h ▸ LawfulPOrd.irrefl c
+      rw [← h]
+      simp only [LawfulPOrd.irrefl c, decide_true, if_true, List.length_cons]
+      simp at ih ⊢
+      omega
+    · have h' := LawfulPOrd.asymm h
+      have hne : c ≠ cs n := (LawfulPOrd.ne_of_lt h).symm
+      simp [h, h', hne] at ih ⊢; omega
+
+
+/-! ## total-correctness rule for fuel-bounded `while` loops -/
+
+/-- postcondition of one iteration: a `break` establishes `Q`; otherwise `Inv` is kept and the variant
+decreases -/
+def StepPost {σ : Type} (Inv Q : σ → Prop) (var : σ → Nat) (s : σ) : ForInStep σ → Prop
+  | .done s' => Q s'
+  | .yield s' => Inv s' ∧ var s' < var s
+
+/-- `n` iterations (or fewer, if one breaks) of a pure loop step -/
+def run {σ : Type} (step : σ → ForInStep σ) : Nat → σ → σ
+  | 0, s => s
+  | n + 1, s =>
+    match step s with
+    | .done s' => s'
+    | .yield s' => run step n s'
+
+/-- `for _ in l` with a `done` flag: if, in states satisfying `Inv`, the body computes the pure function
+`step` without raising, `Inv` is preserved by every iteration that continues, the variant strictly
+decreases on those, every iteration that breaks establishes `Q`, and the list is longer than the initial
+variant, then the loop breaks (never runs out of fuel) in the state `run step l.length s`, which
+satisfies `Q`. Stated in continuation form so that it can be applied to a goal `R (forIn … >>= k)` by
+unification. -/
+theorem forIn_run {σ α β : Type} (Inv Q : σ → Prop) (var : σ → Nat) (step : σ → ForInStep σ)
+    (body : α → σ → M (ForInStep σ)) (R : M β → Prop) (k : σ → M β) (l : List α) (s : σ)
+    (hstep : ∀ a s, Inv s → body a s = .ok (step s) ∧ StepPost Inv Q var s (step s))
+    (hs : Inv s) (hvar : var s < l.length)
+    (hk : Q (run step l.length s) → R (k (run step l.length s))) : R (forIn l s body >>= k) := by
+  induction l generalizing s with
+  | nil => simp at hvar
+  | cons a l ih =>
+    obtain ⟨hr, hm⟩ := hstep a s hs
+    rw [List.forIn_cons, hr]
+    cases hst : step s with
+    | done s' =>
+      rw [hst] at hm
+      have e : run step (a :: l).length s = s' := by simp [run, hst]
+      rw [e] at hk
+      simp only [ok_bind, pure_eq_ok]; exact hk hm
+    | yield s' =>
+      rw [hst] at hm
+      have e : run step (a :: l).length s = run step l.length s' := by simp [run, hst]
+      rw [e] at hk
+      simp only [ok_bind]
+      exact ih s' hm.1 (by simp at hvar; have := hm.2; omega) hk
+
+/-- both steps break or both continue, in related states -/
+def StepRel {σ₁ σ₂ : Type} (Rel : σ₁ → σ₂ → Prop) : ForInStep σ₁ → ForInStep σ₂ → Prop
+  | .done a, .done b => Rel a b
+  | .yield a, .yield b => Rel a b
+  | _, _ => False
+
+/-- two pure loops that proceed in lock-step stay related -/
+theorem run_rel {σ₁ σ₂ : Type} (Rel : σ₁ → σ₂ → Prop) (st₁ : σ₁ → ForInStep σ₁) (st₂ : σ₂ → ForInStep σ₂)
+    (h : ∀ s₁ s₂, Rel s₁ s₂ → StepRel Rel (st₁ s₁) (st₂ s₂)) :
+    ∀ n s₁ s₂, Rel s₁ s₂ → Rel (run st₁ n s₁) (run st₂ n s₂) := by
+  intro n
+  induction n with
+  | zero => intro s₁ s₂ hr; exact hr
+  | succ n ih =>
+    intro s₁ s₂ hr
+    have := h s₁ s₂ hr
+    unfold run
+    cases h1 : st₁ s₁ <;> cases h2 : st₂ s₂ <;> rw [h1, h2] at this <;> simp only [StepRel] at this ⊢
+    · exact this
+    · exact ih _ _ this
+
+/-! ## evaluation lemmas for the statements of the loop bodies -/
+
+theorem filterMap_ite {α : Type} (p : α → Bool) (l : List α) :
+    l.filterMap (fun n => if p n = true then some n else Option.none) = l.filter p := by
+  induction l with
+  | nil => rfl
+  | cons a l ih => by_cases h : p a = true <;> simp [h, ih]
+
+theorem popLast_ok {α : Type} (l : List α) (h : l ≠ []) : popLast l = .ok (l.getLast h, l.dropLast) := by
+  unfold popLast
+  rw [List.getLast?_eq_getLast_of_ne_nil h]; rfl
+
+theorem popLast_snoc {α : Type} (l : List α) (a : α) : popLast (l ++ [a]) = .ok (a, l) := by
+  unfold popLast; simp
+
+theorem nodeDataGet_ok {g : Graph} {a : Int} (ha : a ∈ g.nodeList) (k : String) :
+    g.nodeDataGet k a = .ok (attrV g k a) := by
+  obtain ⟨x, hx⟩ := Dict.exists_get?_of_mem_keys ha
+  simp [Graph.nodeDataGet, attrV, Graph.attr, hx]
+
+/-- the neighbours `nb` of `a` in the order in which they are pushed: for every priority in turn, those
+neighbours whose class compares accordingly with the class of `a`, sorted by label -/
+def travOrder (prs : List (Val → Val → Bool)) (g : Graph) (a : Int) (nb : List Int) : List Int :=
+  prs.flatMap (fun pri => sorted (nb.filter (fun n => pri (cls g a) (cls g n))))
+
+theorem prio_loop {g : Graph} {a : Int} (ha : a ∈ g.nodeList) (nb : List Int) (hnb : ∀ n ∈ nb, n ∈ g.nodeList)
+    (prs : List (Val → Val → Bool)) (acc : List Int) :
+    forIn prs acc (fun (priority : Val → Val → Bool) (s : List Int) => do
+      let l ← listComp nb (fun n => do
+        let c ← g.nodeDataGet "partition" a
+        let c' ← g.nodeDataGet "partition" n
+        if priority c c' = true then pure (some n) else pure Option.none)
+      pure (ForInStep.yield (pyAdd s (sorted l)))) =
+    .ok (acc ++ travOrder prs g a nb) := by
+  unfold travOrder
+  induction prs generalizing acc with
+  | nil => simp
+  | cons pri prs ih =>
+    rw [List.forIn_cons, listComp_ok _ _ (fun n => if pri (cls g a) (cls g n) = true then some n else Option.none)]
+    · simp only [ok_bind, pure_eq_ok, pyAdd_list, filterMap_ite]
+      refine (ih _).trans ?_; simp
+    · intro n hn
+      rw [nodeDataGet_ok ha, nodeDataGet_ok (hnb n hn)]
+      simp only [ok_bind]
+      split <;> rfl
+
+theorem unexplored_eq {m g : Graph} {d : Dict Val (List Int)} {fl : Dict Int Int} (h : Good m g d fl) :
+    List.filterMap (fun x : Int × Val => if (!truthy x.2) = true then some x.1 else Option.none)
+      (g.nodesDataKey "explored") = unexp m fl := by
+  unfold unexp nodesDataKey
+  rw [← h.nodeList_eq, List.filterMap_map]
+  unfold Graph.nodeList Dict.keys
+  rw [← filterMap_ite, List.filterMap_map]
+  apply List.filterMap_congr
+  intro p hp
+  have hmem : p.1 ∈ m.nodeList := by rw [← h.nodeList_eq]; exact List.mem_map_of_mem (f := Prod.fst) hp
+  have h1 : g.node.get? p.1 = some p.2 := Dict.get?_of_mem_items h.wf.node_wf (by simpa using hp)
+  have h2 := h.expl p.1 hmem
+  unfold Graph.attr at h2
+  rw [h1] at h2
+  simp only [Option.bind_some] at h2
+  simp only [Function.comp, h2, Option.getD_some]
+  have ht : truthy (Val.bool (decide (p.1 ∈ fl.keys))) = decide (p.1 ∈ fl.keys) := rfl
+  rw [ht, decide_not]
+  rfl
+
+/-- fuel that suffices for both `while` loops of `_assign_final_labels`: number of atoms + sum of the
+degrees (= twice the number of bonds, for a loop-free graph) + 2 -/
+def fuelBound (m : Graph) : Nat := m.nodeList.length + (m.nodeList.map (fun u => (m.nbrs u).length)).sum + 2
+
+/-- the traversal priorities passed by `serialize_molecule` -/
+abbrev prios : List (Val → Val → Bool) := [(fun a b => pyLt a b), (fun a b => pyGt a b), (fun a b => pyEq a b)]
+
+theorem travOrder_sub (prs : List (Val → Val → Bool)) (g : Graph) (a : Int) (nb : List Int) :
+    ∀ b ∈ travOrder prs g a nb, b ∈ nb := by
+  intro b hb
+  unfold travOrder at hb
+  rw [List.mem_flatMap] at hb
+  obtain ⟨pri, _, hb⟩ := hb
+  rw [mem_sorted, List.mem_filter] at hb
+  exact hb.1
+
+theorem length_sorted {α : Type} [POrd α] (l : List α) : (sorted l).length = l.length :=
+  (sorted_perm_self l).length_eq
+
+/-- `<`, `>`, `==` on the classes: every neighbour is pushed exactly once -/
+theorem travOrder_length (g : Graph) (a : Int) (nb : List Int) :
+    (travOrder prios.reverse g a nb).length = nb.length := by
+  unfold travOrder
+  simp only [prios, List.reverse_cons, List.reverse_nil, List.nil_append, List.cons_append, List.flatMap_cons,
+    List.flatMap_nil, List.append_nil, List.length_append, length_sorted]
+  have := prio_split (cls g a) (cls g) nb
+  omega
+
+theorem travOrder_congr (prs : List (Val → Val → Bool)) {g h : Graph} (a : Int) {nb nb' : List Int}
+    (hc : ∀ x, cls g x = cls h x) (hp : nb.Perm nb') : travOrder prs g a nb = travOrder prs h a nb' := by
+  unfold travOrder
+  congr 1
+  funext pri
+  simp only [hc]
+  exact sorted_perm (hp.filter _)
+
+abbrev SO := Graph × Dict Val (List Int) × Dict Int Int × Bool
+abbrev SI := Graph × Dict Val (List Int) × Dict Int Int × List Int × Bool
+
+/-- one iteration of the inner `while atom_queue:` loop, as a pure function of the loop state
+`(m, labels_by_partition, final_labels, atom_queue, done_2)`; `m` is the graph the function was called with -/
+def innerStep (m : Graph) (t : SI) : ForInStep SI :=
+  if t.2.2.2.1 = [] then .done (t.1, t.2.1, t.2.2.1, t.2.2.2.1, true)
+  else
+    let a := t.2.2.2.1.getLastD 0
+    let rest := t.2.2.2.1.dropLast
+    if a ∈ t.2.2.1.keys then .yield (t.1, t.2.1, t.2.2.1, rest, t.2.2.2.2)
+    else
+      let l := (t.2.1.get? (cls m a)).getD []
+      .yield (t.1.modNode a (fun x => x.set "explored" (Val.bool true)), t.2.1.set (cls m a) l.dropLast,
+        t.2.2.1.set a (l.getLastD 0), (travOrder prios.reverse m a (m.nbrs a)).reverse ++ rest, t.2.2.2.2)
+
+/-- one iteration of the outer `while unexplored := …:` loop on `(m, labels_by_partition, final_labels, done_1)` -/
+def outerStep (m : Graph) (fuel : Nat) (s : SO) : ForInStep SO :=
+  match sorted (unexp m s.2.2.1) with
+  | [] => .done (s.1, s.2.1, s.2.2.1, true)
+  | u0 :: _ =>
+    let t := run (innerStep m) fuel (s.1, s.2.1, s.2.2.1, [u0], false)
+    .yield (t.1, t.2.1, t.2.2.1, s.2.2.2)
+
+/-- the `final_labels` dict computed by `_assign_final_labels`, as a pure function of the argument graph,
+the fuel and the initial `labels_by_partition` -/
+def specFL (m : Graph) (fuel : Nat) (d0 : Dict Val (List Int)) : Dict Int Int :=
+  (run (outerStep m fuel) fuel (clearExplored m, d0, Dict.empty, false)).2.2.1
+
+def InvO (m : Graph) (s : SO) : Prop := Good m s.1 s.2.1 s.2.2.1 ∧ s.2.2.2 = false
+def QO (m : Graph) (s : SO) : Prop := Good m s.1 s.2.1 s.2.2.1 ∧ s.2.2.2 = true ∧ ∀ a ∈ m.nodeList, a ∈ s.2.2.1.keys
+def varO (m : Graph) (s : SO) : Nat := (unexp m s.2.2.1).length
+
+structure InvI (m : Graph) (u0 : Int) (fl0 : Dict Int Int) (t : SI) : Prop where
+  good : Good m t.1 t.2.1 t.2.2.1
+  dn : t.2.2.2.2 = false
+  q_sub : ∀ a ∈ t.2.2.2.1, a ∈ m.nodeList
+  mono : ∀ a ∈ fl0.keys, a ∈ t.2.2.1.keys
+  u0 : u0 ∈ t.2.2.1.keys ∨ u0 ∈ t.2.2.2.1
+def QI (m : Graph) (u0 : Int) (fl0 : Dict Int Int) (t : SI) : Prop :=
+  Good m t.1 t.2.1 t.2.2.1 ∧ t.2.2.2.2 = true ∧ (∀ a ∈ fl0.keys, a ∈ t.2.2.1.keys) ∧ u0 ∈ t.2.2.1.keys
+def varI (m : Graph) (t : SI) : Nat := t.2.2.2.1.length + wgt m t.2.2.1
+
+theorem good_init {m : Graph} (hm : m.WF) {d0 : Dict Val (List Int)}
+    (hd0k : ∀ p, p ∈ d0.keys ↔ ∃ a ∈ m.nodeList, cls m a = p)
+    (hd0g : ∀ p ∈ d0.keys, d0.get? p = some (sortedRev (classNodes m p))) :
+    Good m (clearExplored m) d0 Dict.empty where
+  wf := WF_setNodeAttrScalar hm _ _
+  clear := scalar_scalar _ _ _ _
+  expl := fun a ha => by
+    rw [attr_setNodeAttrScalar, if_pos rfl]
+    obtain ⟨x, hx⟩ := Dict.exists_get?_of_mem_keys ha
+    rw [hx]; rfl
+  fl_wf := Dict.WF_empty
+  fl_sub := fun a ha => by simp at ha
+  d_keys := fun a ha => (hd0k _).2 ⟨a, ha, rfl⟩
+  d_perm := fun p l hl => by
+    rw [hd0g p (Dict.mem_keys_of_get? hl)] at hl
+    simp only [Option.some.injEq] at hl
+    subst hl
+    simpa [Dict.empty] using sortedRev_perm_self (classNodes m p)
+
+/-- what the traversal guarantees about `final_labels` -/
+structure FinalLabelsSpec (m : Graph) (fl : Dict Int Int) : Prop where
+  wf : fl.WF
+  keys : fl.keys.Perm m.nodeList
+  into : ∀ a x, fl.get? a = some x → x ∈ m.nodeList ∧ cls m x = cls m a
+  inj : ∀ a b x, fl.get? a = some x → fl.get? b = some x → a = b
+
+theorem Good.final {m g : Graph} {d : Dict Val (List Int)} {fl : Dict Int Int} (h : Good m g d fl)
+    (hall : ∀ a ∈ m.nodeList, a ∈ fl.keys) : FinalLabelsSpec m fl := by
+  have hF : ∀ a x, fl.get? a = some x → ∃ l, d.get? (cls m a) = some l ∧
+      (l ++ (fl.items.filter (fun q => decide (cls m q.1 = cls m a))).map Prod.snd).Perm (classNodes m (cls m a)) ∧
+      (a, x) ∈ fl.items.filter (fun q => decide (cls m q.1 = cls m a)) := by
+    intro a x hax
+    have ha : a ∈ m.nodeList := h.fl_sub a (Dict.mem_keys_of_get? hax)
+    obtain ⟨l, hl⟩ := Dict.exists_get?_of_mem_keys (h.d_keys a ha)
+    exact ⟨l, hl, h.d_perm _ _ hl, List.mem_filter.2 ⟨Dict.mem_items_of_get? hax, by simp⟩⟩
+  have hcls : ∀ a x, fl.get? a = some x → x ∈ m.nodeList ∧ cls m x = cls m a := by
+    intro a x hax
+    obtain ⟨l, _, hp, hmem⟩ := hF a x hax
+    have : x ∈ classNodes m (cls m a) :=
+      hp.subset (List.mem_append_right _ (List.mem_map.2 ⟨(a, x), hmem, rfl⟩))
+    simpa [classNodes] using this
+  refine ⟨h.fl_wf, (List.perm_ext_iff_of_nodup h.fl_wf h.mwf).2 (fun a => ⟨h.fl_sub a, hall a⟩), hcls, ?_⟩
+  intro a b x hax hbx
+  obtain ⟨l, _, hp, hmem⟩ := hF a x hax
+  obtain ⟨_, _, _, hmemb⟩ := hF b x hbx
+  have hc : cls m b = cls m a := by rw [← (hcls a x hax).2, (hcls b x hbx).2]
+  rw [hc] at hmemb
+  have hnd : (classNodes m (cls m a)).Nodup := h.mwf.filter _
+  have hnd2 := (hp.nodup_iff.2 hnd).of_append_right
+  have := List.inj_on_of_nodup_map hnd2 hmem hmemb rfl
+  exact congrArg Prod.fst this
+
+/-- TOTALITY (C15) and functional description: with enough fuel `_assign_final_labels` does not raise;
+it returns the flag-cleared argument renamed by the dict `specFL m fuel d0` (`d0` = the result of
+`_labels_by_partition`) and leaves the flag-cleared argument behind -/
+theorem assign_final_labels_spec (env : DepEnv) (hs : env.SetLawful) (fuel : Nat) {m : Graph} (hm : m.WF)
+    (hc : Carries m "partition") (hf : fuel ≥ fuelBound m) {d0 : Dict Val (List Int)}
+    (hd0 : Tucan.serialization._labels_by_partition env m = .ok d0) :
+    Tucan.serialization._assign_final_labels env fuel m prios =
+        .ok ((clearExplored m).relabelCopy (specFL m fuel d0), clearExplored m) ∧
+      FinalLabelsSpec m (specFL m fuel d0) := by
+  obtain ⟨d0', hd0', hd0wf, hd0k, hd0g⟩ := labels_by_partition_ok env hs hm.node_wf hc
+  rw [hd0] at hd0'
+  simp only [Except.ok.injEq] at hd0'
+  subst hd0'
+  unfold Tucan.serialization._assign_final_labels
+  simp only [hd0, ok_bind]
+  refine forIn_run (InvO m) (QO m) (varO m) (outerStep m fuel) _
+    (fun x => x = .ok ((clearExplored m).relabelCopy (specFL m fuel d0), clearExplored m) ∧
+      FinalLabelsSpec m (specFL m fuel d0))
+    _ _ _ ?hstep ?hs ?hvar ?hk
+  case hs => exact ⟨good_init hm hd0k hd0g, rfl⟩
+  case hvar =>
+    simp only [varO, unexp, List.length_range]
+    have := List.length_filter_le (fun a => decide (a ∉ (Dict.empty : Dict Int Int).keys)) m.nodeList
+    unfold fuelBound at hf
+    omega
+  case hk =>
+    have hfl : specFL m fuel d0 = (run (outerStep m fuel) (List.range fuel).length
+        (m.setNodeAttrScalar (toVal false) "explored", d0, Dict.empty, false)).2.2.1 := by
+      rw [List.length_range]; rfl
+    rw [hfl]
+    generalize run (outerStep m fuel) (List.range fuel).length
+      (m.setNodeAttrScalar (toVal false) "explored", d0, Dict.empty, false) = sfin
+    obtain ⟨g, d, fl, dn⟩ := sfin
+    rintro ⟨hG, hdn, hall⟩
+    simp only at hG hdn hall ⊢
+    subst hdn
+    have hspec := hG.final hall
+    refine ⟨?_, hspec⟩
+    have hlen : fl.items.length = g.node.items.length := by
+      have := hspec.keys.length_eq
+      rw [← hG.nodeList_eq] at this
+      simpa [Dict.keys, Graph.nodeList] using this
+    have hassert : pyAssert (pyEq (pyLen fl) g.numberOfNodes) = .ok () := by
+      have : pyEq (pyLen fl) g.numberOfNodes = true := by
+        show decide ((fl.items.length : Int) = (g.node.items.length : Int)) = true
+        rw [hlen]; simp
+      rw [this]; rfl
+    have hclear : g.setNodeAttrScalar (toVal false) "explored" = clearExplored m := hG.clear
+    simp only [Bool.not_true, Bool.false_eq_true, if_false, hassert, ok_bind, hclear, pure_eq_ok]
+  case hstep =>
+    rintro _ ⟨g, d, fl, dn⟩ ⟨hG, hdn⟩
+    simp only at hG hdn ⊢
+    subst hdn
+    rw [listComp_ok _ _ (fun x : Int × Val => if (!truthy x.2) = true then some x.1 else Option.none)]
+    swap
+    · intro x _; split <;> rfl
+    simp only [ok_bind, pyIter_list, unexplored_eq hG]
+    by_cases hemp : sorted (unexp m fl) = []
+    · have ht : (!truthy (sorted (unexp m fl))) = true := by rw [hemp]; rfl
+      have hst : outerStep m fuel (g, d, fl, false) = .done (g, d, fl, true) := by
+        simp only [outerStep, hemp]
+      rw [if_pos ht, hst]
+      refine ⟨rfl, hG, rfl, ?_⟩
+      have : unexp m fl = [] := by
+        have := (sorted_perm_self (unexp m fl)).symm
+        rw [hemp] at this
+        exact List.perm_nil.1 this
+      intro a ha
+      by_contra hna
+      have : a ∈ unexp m fl := List.mem_filter.2 ⟨ha, by simpa using hna⟩
+      simp_all
+    · obtain ⟨u0, tl, hsl⟩ := List.exists_cons_of_ne_nil hemp
+      have hu0mem : u0 ∈ unexp m fl := by
+        rw [← mem_sorted, hsl]; simp
+      obtain ⟨hu0n, hu0k⟩ := List.mem_filter.1 hu0mem
+      have hu0k : u0 ∉ fl.keys := by simpa using hu0k
+      have ht : ¬ (!truthy (sorted (unexp m fl))) = true := by rw [hsl]; exact Bool.false_ne_true
+      have hget : (getItem (u0 :: tl) (0 : Int) : M Int) = .ok u0 := rfl
+      have hst : outerStep m fuel (g, d, fl, false) =
+          .yield ((run (innerStep m) (List.range fuel).length (g, d, fl, [u0], false)).1,
+            (run (innerStep m) (List.range fuel).length (g, d, fl, [u0], false)).2.1,
+            (run (innerStep m) (List.range fuel).length (g, d, fl, [u0], false)).2.2.1, false) := by
+        simp only [outerStep, hsl, List.length_range]
+      rw [if_neg ht, hsl, hget, hst]
+      simp only [ok_bind, pyIter_list]
+      refine forIn_run (InvI m u0 fl) (QI m u0 fl) (varI m) (innerStep m) _
+        (fun x => x = .ok (ForInStep.yield ((run (innerStep m) (List.range fuel).length (g, d, fl, [u0], false)).1,
+            (run (innerStep m) (List.range fuel).length (g, d, fl, [u0], false)).2.1,
+            (run (innerStep m) (List.range fuel).length (g, d, fl, [u0], false)).2.2.1, false)) ∧
+          StepPost (InvO m) (QO m) (varO m) (g, d, fl, false)
+            (ForInStep.yield ((run (innerStep m) (List.range fuel).length (g, d, fl, [u0], false)).1,
+            (run (innerStep m) (List.range fuel).length (g, d, fl, [u0], false)).2.1,
+            (run (innerStep m) (List.range fuel).length (g, d, fl, [u0], false)).2.2.1, false)))
+        _ _ _ ?hstepI ?hsI ?hvarI ?hkI
+      case hsI => exact ⟨hG, rfl, by simp [hu0n], fun _ h => h, Or.inr (by simp)⟩
+      case hvarI =>
+        have := wgt_le m fl
+        unfold fuelBound at hf
+        simp only [varI, List.length_range, List.length_singleton]
+        omega
+      case hkI =>
+        generalize run (innerStep m) (List.range fuel).length (g, d, fl, [u0], false) = tfin
+        obtain ⟨g', d', fl', q', dn'⟩ := tfin
+        rintro ⟨hG', hdn', hmono, hu0'⟩
+        simp only at hG' hdn' hmono hu0' ⊢
+        subst hdn'
+        refine ⟨rfl, ⟨hG', rfl⟩, ?_⟩
+        exact unexp_lt m hmono hu0n hu0k hu0'
+      case hstepI =>
+        rintro _ ⟨g', d', fl', q, dn'⟩ ⟨hG', hdn', hq, hmono, hu0'⟩
+        simp only at hG' hdn' hq hmono hu0' ⊢
+        subst hdn'
+        by_cases hq0 : q = []
+        · subst hq0
+          have ht : (!truthy ([] : List Int)) = true := rfl
+          have hst : innerStep m (g', d', fl', [], false) = .done (g', d', fl', [], true) := by
+            simp [innerStep]
+          rw [if_pos ht, hst]
+          refine ⟨rfl, hG', rfl, hmono, ?_⟩
+          simpa using hu0'
+        · obtain ⟨a, rest, hqa⟩ : ∃ a rest, q = rest ++ [a] :=
+            ⟨_, _, (List.dropLast_append_getLast hq0).symm⟩
+          subst hqa
+          have ht : ¬ (!truthy (rest ++ [a])) = true := by simp [truthy, Truthy.truthy]
+          have ha : a ∈ m.nodeList := hq a (by simp)
+          have hag : a ∈ g'.nodeList := by rw [hG'.nodeList_eq]; exact ha
+          rw [if_neg ht, popLast_snoc]
+          simp only [ok_bind]
+          -- the neighbours and their traversal order do not depend on the rest of the iteration
+          rw [Contracts.Partition.neighbors_ok hG'.wf a hag]
+          simp only [ok_bind]
+          rw [prio_loop hag (g'.nbrs a) (fun n hn => hG'.wf.nbr_mem a n hn)]
+          simp only [ok_bind, List.nil_append]
+          have hto : travOrder prios.reverse g' a (g'.nbrs a) = travOrder prios.reverse m a (m.nbrs a) :=
+            travOrder_congr _ a hG'.cls_eq (by rw [hG'.nbrs_eq])
+          rw [hto]
+          -- the `explored` flag of `a`
+          obtain ⟨x, hx1, hx2⟩ := Contracts.Partition.nodeAttrs_getItem g' a "explored" (by rw [hG'.expl a ha]; rfl)
+          have hx3 : attrV g' "explored" a = Val.bool (decide (a ∈ fl'.keys)) := by
+            unfold attrV; rw [hG'.expl a ha]; rfl
+          rw [hx1]
+          simp only [ok_bind]
+          rw [hx2, hx3]
+          simp only [ok_bind]
+          have htr : truthy (Val.bool (decide (a ∈ fl'.keys))) = decide (a ∈ fl'.keys) := rfl
+          rw [htr]
+          by_cases hex : a ∈ fl'.keys
+          · have hst : innerStep m (g', d', fl', rest ++ [a], false) = .yield (g', d', fl', rest, false) := by
+              simp [innerStep, hex]
+            rw [if_pos (by simpa using hex), hst]
+            refine ⟨rfl, ⟨hG', rfl, fun b hb => hq b (by simp [hb]), hmono, ?_⟩, ?_⟩
+            · rcases hu0' with h | h
+              · exact Or.inl h
+              · rcases List.mem_append.1 h with h | h
+                · exact Or.inr h
+                · simp only [List.mem_singleton] at h; exact Or.inl (h ▸ hex)
+            · simp [varI]
+          · rw [if_neg (by simpa using hex)]
+            obtain ⟨l, hl⟩ := Dict.exists_get?_of_mem_keys (hG'.d_keys a ha)
+            obtain ⟨hne, hG''⟩ := hG'.explore ha hex hl
+            have hst : innerStep m (g', d', fl', rest ++ [a], false) =
+                .yield (g'.modNode a (fun x => x.set "explored" (Val.bool true)), d'.set (cls m a) l.dropLast,
+                  fl'.set a (l.getLast hne), (travOrder prios.reverse m a (m.nbrs a)).reverse ++ rest, false) := by
+              have h1 : l.getLast?.getD 0 = l.getLast hne := by
+                rw [List.getLast?_eq_getLast_of_ne_nil hne]; rfl
+              have h2 : l.getLastD 0 = l.getLast hne := by
+                rw [List.getLastD_eq_getLast?, h1]
+              simp [innerStep, hex, hl, h1, h2]
+            have hcls : attrV g' "partition" a = cls m a := hG'.cls_eq a
+            rw [nodeDataGet_ok hag, hcls, hst]
+            simp only [ok_bind]
+            rw [getItem_valdict, hl]
+            simp only [ok_bind]
+            rw [popLast_ok l hne]
+            simp only [ok_bind, setItem_dict]
+            rw [setNodeAttr1_eq, if_pos hag]
+            simp only [ok_bind, pure_eq_ok, pyIter_list]
+            refine ⟨rfl, ⟨hG'', rfl, ?_, ?_, ?_⟩, ?_⟩
+            · intro b hb
+              rcases List.mem_append.1 hb with hb | hb
+              · rw [List.mem_reverse] at hb
+                exact hG'.wf.nbr_mem a b (hG'.nbrs_eq a ▸ travOrder_sub _ m a _ b hb) |> (hG'.nodeList_eq ▸ ·)
+              · exact hq b (by simp [hb])
+            · intro b hb; exact mem_keys_set_mono _ _ _ (hmono b hb)
+            · rcases hu0' with h | h
+              · exact Or.inl (mem_keys_set_mono _ _ _ h)
+              · rcases List.mem_append.1 h with h | h
+                · exact Or.inr (List.mem_append_right _ h)
+                · simp only [List.mem_singleton] at h
+                  exact Or.inl (h ▸ (Dict.mem_keys_set _ _ _ _).2 (Or.inl rfl))
+            · have h1 := wgt_set m fl' (l.getLast hne) ha hex
+              have h2 := travOrder_length m a (m.nbrs a)
+              simp only [varI, List.length_append, List.length_reverse, List.length_singleton]
+              omega
+
+/-! ## BIJECTION: `final_labels` permutes every partition class -/
+
+namespace FinalLabelsSpec
+variable {m : Graph} {fl : Dict Int Int}
+
+theorem get (h : FinalLabelsSpec m fl) {a : Int} (ha : a ∈ m.nodeList) : fl.get? a = some (relabelFun fl a) := by
+  obtain ⟨x, hx⟩ := Dict.exists_get?_of_mem_keys (h.keys.mem_iff.2 ha)
+  unfold relabelFun; rw [hx]; rfl
+
+/-- every node is mapped to a node of its own class -/
+theorem maps_cls (h : FinalLabelsSpec m fl) {a : Int} (ha : a ∈ m.nodeList) :
+    relabelFun fl a ∈ m.nodeList ∧ cls m (relabelFun fl a) = cls m a := h.into a _ (h.get ha)
+
+theorem injOn (h : FinalLabelsSpec m fl) :
+    ∀ a ∈ m.nodeList, ∀ b ∈ m.nodeList, relabelFun fl a = relabelFun fl b → a = b := by
+  intro a ha b hb e
+  exact h.inj a b _ (h.get ha) (e ▸ h.get hb)
+
+theorem perm_of_sub {l : List Int} (h : FinalLabelsSpec m fl) (hnd : l.Nodup) (hl : ∀ a ∈ l, a ∈ m.nodeList)
+    (hcl : ∀ a ∈ l, relabelFun fl a ∈ l) : (l.map (relabelFun fl)).Perm l := by
+  have hnd' : (l.map (relabelFun fl)).Nodup :=
+    List.Nodup.map_on (fun a ha b hb e => h.injOn a (hl a ha) b (hl b hb) e) hnd
+  have hsub : l.map (relabelFun fl) ⊆ l := by
+    intro x hx
+    obtain ⟨a, ha, rfl⟩ := List.mem_map.1 hx
+    exact hcl a ha
+  exact (hnd'.subperm hsub).perm_of_length_le (by simp)
+
+/-- `final_labels` is a bijection of the node set onto itself -/
+theorem perm_nodes (h : FinalLabelsSpec m fl) (hm : m.node.WF) : (m.nodeList.map (relabelFun fl)).Perm m.nodeList :=
+  h.perm_of_sub hm (fun _ ha => ha) (fun _ ha => (h.maps_cls ha).1)
+
+/-- … and maps every partition class onto itself -/
+theorem perm_class (h : FinalLabelsSpec m fl) (hm : m.node.WF) (p : Val) :
+    ((classNodes m p).map (relabelFun fl)).Perm (classNodes m p) := by
+  refine h.perm_of_sub (hm.filter _) (fun a ha => (List.mem_filter.1 ha).1) (fun a ha => ?_)
+  obtain ⟨ha1, ha2⟩ := List.mem_filter.1 ha
+  obtain ⟨h1, h2⟩ := h.maps_cls ha1
+  exact List.mem_filter.2 ⟨h1, by rw [h2]; exact ha2⟩
+
+/-- the returned graph is the (flag-cleared) argument renamed by the bijection `final_labels` -/
+theorem relabel (h : FinalLabelsSpec m fl) (hm : m.WF) :
+    ((clearExplored m).relabelCopy fl).WF ∧
+    IsRelabel (relabelFun fl) (clearExplored m) ((clearExplored m).relabelCopy fl) ∧
+    ((clearExplored m).relabelCopy fl).nodeList = m.nodeList.map (relabelFun fl) := by
+  have hw : (clearExplored m).WF := WF_setNodeAttrScalar hm _ _
+  have hn : (clearExplored m).nodeList = m.nodeList := nodeList_setNodeAttrScalar _ _ _
+  have inj : ∀ a ∈ (clearExplored m).nodeList, ∀ b ∈ (clearExplored m).nodeList,
+      relabelFun fl a = relabelFun fl b → a = b := by rw [hn]; exact h.injOn
+  refine ⟨WF_relabelCopy hw fl inj, isRelabel_relabelCopy hw fl inj, ?_⟩
+  rw [nodeList_relabelCopy hw fl inj, hn]
+
+end FinalLabelsSpec
+
+/-! ## more fuel never changes a successful result -/
+
+/-- two fuel-bounded runs of a `while` loop with a `done` flag: if the run with the shorter list breaks
+(flag set), the run with the longer list — whose body may differ, as long as it reproduces every successful
+iteration of the first — ends in the same state -/
+theorem forIn_fuel_mono {σ α α' : Type} (flag : σ → Bool) (l₁ : List α) (l₂ : List α') (s s₁ : σ)
+    (b₁ : α → σ → M (ForInStep σ)) (b₂ : α' → σ → M (ForInStep σ))
+    (h₁ : forIn l₁ s b₁ = .ok s₁) (hs : flag s = false) (hs₁ : flag s₁ = true) (hlen : l₁.length ≤ l₂.length)
+    (hy : ∀ a s s', flag s = false → b₁ a s = .ok (.yield s') → flag s' = false)
+    (hb : ∀ a a' s r, flag s = false → b₁ a s = .ok r → b₂ a' s = .ok r) :
+    forIn l₂ s b₂ = .ok s₁ := by
+  induction l₁ generalizing l₂ s with
+  | nil =>
+    simp only [List.forIn_nil, pure_eq_ok, Except.ok.injEq] at h₁
+    subst h₁; rw [hs] at hs₁; cases hs₁
+  | cons a l₁ ih =>
+    cases l₂ with
+    | nil => simp at hlen
+    | cons a' l₂ =>
+      rw [List.forIn_cons] at h₁ ⊢
+      cases hr : b₁ a s with
+      | error e => rw [hr] at h₁; cases h₁
+      | ok r =>
+        rw [hr] at h₁
+        rw [hb a a' s r hs hr]
+        cases r with
+        | done s' => exact h₁
+        | yield s' =>
+          simp only [ok_bind] at h₁ ⊢
+          exact ih l₂ s' h₁ (hy a s s' hs hr) (by simpa using hlen)
+
+theorem assign_final_labels_fuel_mono (env : DepEnv) {fuel fuel' : Nat} (hle : fuel ≤ fuel') (m : Graph)
+    (pr : List (Val → Val → Bool)) {x : Graph × Graph}
+    (h : Tucan.serialization._assign_final_labels env fuel m pr = .ok x) :
+    Tucan.serialization._assign_final_labels env fuel' m pr = .ok x := by
+  unfold Tucan.serialization._assign_final_labels at h ⊢
+  simp only [pure_eq_ok] at h ⊢
+  obtain ⟨d, hd, h⟩ := bind_eq_ok.1 h
+  rw [hd]
+  simp only [ok_bind]
+  obtain ⟨s, hloop, h⟩ := bind_eq_ok.1 h
+  clear hd
+  split at h
+  · simp at h
+  next hdone =>
+  have hdone : s.2.2.2 = true := by simpa using hdone
+  rw [forIn_fuel_mono (fun s => s.2.2.2) (List.range fuel) (List.range fuel') _ s _ _ hloop rfl hdone
+    (by simpa using hle)]
+  · simp only [ok_bind, hdone, Bool.not_true, Bool.false_eq_true, if_false] at h ⊢
+    exact h
+  · -- a continuing outer iteration keeps `done_1 = False`
+    intro a s s' hfl hbody
+    obtain ⟨unex, -, hbody⟩ := bind_eq_ok.1 hbody
+    split at hbody
+    · cases hbody
+    · obtain ⟨u0, -, hbody⟩ := bind_eq_ok.1 hbody
+      obtain ⟨t, -, hbody⟩ := bind_eq_ok.1 hbody
+      split at hbody
+      · simp at hbody
+      · simp only [Except.ok.injEq, ForInStep.yield.injEq] at hbody
+        rw [← hbody]; exact hfl
+  · -- every successful outer iteration is reproduced with more fuel
+    intro a a' s r hfl hbody
+    obtain ⟨unex, hu, hbody⟩ := bind_eq_ok.1 hbody
+    simp only [hu, ok_bind]
+    split at hbody
+    next hc => rw [if_pos hc]; exact hbody
+    next hc =>
+    rw [if_neg hc]
+    obtain ⟨u0, hg, hbody⟩ := bind_eq_ok.1 hbody
+    simp only [hg, ok_bind]
+    obtain ⟨t, hinner, hbody⟩ := bind_eq_ok.1 hbody
+    split at hbody
+    · simp at hbody
+    next hd2 =>
+    have hd2 : t.2.2.2.2 = true := by simpa using hd2
+    rw [forIn_fuel_mono (fun t => t.2.2.2.2) (List.range fuel) (List.range fuel') _ t _ _ hinner rfl hd2
+      (by simpa using hle)]
+    · simp only [ok_bind, hd2, Bool.not_true, Bool.false_eq_true, if_false]
+      exact hbody
+    · -- a continuing inner iteration keeps `done_2 = False`
+      intro y t t' hfl2 hb
+      split at hb
+      · cases hb
+      · obtain ⟨⟨a, rest⟩, -, hb⟩ := bind_eq_ok.1 hb
+        simp only at hb
+        obtain ⟨attrs, -, hb⟩ := bind_eq_ok.1 hb
+        obtain ⟨ex, -, hb⟩ := bind_eq_ok.1 hb
+        split at hb
+        · simp only [Except.ok.injEq, ForInStep.yield.injEq] at hb
+          rw [← hb]; exact hfl2
+        · obtain ⟨c, -, hb⟩ := bind_eq_ok.1 hb
+          obtain ⟨l, -, hb⟩ := bind_eq_ok.1 hb
+          obtain ⟨⟨x5, rest6⟩, -, hb⟩ := bind_eq_ok.1 hb
+          simp only at hb
+          obtain ⟨c', -, hb⟩ := bind_eq_ok.1 hb
+          obtain ⟨d', -, hb⟩ := bind_eq_ok.1 hb
+          obtain ⟨fl', -, hb⟩ := bind_eq_ok.1 hb
+          obtain ⟨nb, -, hb⟩ := bind_eq_ok.1 hb
+          obtain ⟨order, -, hb⟩ := bind_eq_ok.1 hb
+          obtain ⟨m2, -, hb⟩ := bind_eq_ok.1 hb
+          simp only [Except.ok.injEq, ForInStep.yield.injEq] at hb
+          rw [← hb]; exact hfl2
+    · intro y y' t r _ hb; exact hb
+
+/-- TOTALITY (C15), fuel-independent form: there is one `final_labels` dict such that for every
+`fuel ≥ fuelBound m` the call succeeds, returns the flag-cleared argument renamed by it and leaves the
+flag-cleared argument behind -/
+theorem assign_final_labels_ok (env : DepEnv) (hs : env.SetLawful) {m : Graph} (hm : m.WF)
+    (hc : Carries m "partition") :
+    ∃ fl, FinalLabelsSpec m fl ∧ ∀ fuel, fuel ≥ fuelBound m →
+      Tucan.serialization._assign_final_labels env fuel m prios =
+        .ok ((clearExplored m).relabelCopy fl, clearExplored m) := by
+  obtain ⟨d0, hd0, -⟩ := labels_by_partition_ok env hs hm.node_wf hc
+  obtain ⟨h1, h2⟩ := assign_final_labels_spec env hs (fuelBound m) hm hc (le_refl _) hd0
+  exact ⟨_, h2, fun fuel hf => assign_final_labels_fuel_mono env hf m prios h1⟩
+
+/-- C15 for `_assign_final_labels`: no exception (no assertion, index or key error, no fuel exhaustion) -/
+theorem assign_final_labels_total (env : DepEnv) (hs : env.SetLawful) (fuel : Nat) {m : Graph} (hm : m.WF)
+    (hc : Carries m "partition") (hf : fuel ≥ fuelBound m) :
+    ∃ r m', Tucan.serialization._assign_final_labels env fuel m prios = .ok (r, m') := by
+  obtain ⟨fl, -, h⟩ := assign_final_labels_ok env hs hm hc
+  exact ⟨_, _, h fuel hf⟩
+
+/-- BIJECTION: the returned graph `r` is well-formed and is `m'` (the argument after the call) renamed by
+a bijection `π` of the node set that maps every partition class onto itself -/
+theorem assign_final_labels_relabel (env : DepEnv) (hs : env.SetLawful) (fuel : Nat) {m : Graph} (hm : m.WF)
+    (hc : Carries m "partition") (hf : fuel ≥ fuelBound m) :
+    ∃ r m' π, Tucan.serialization._assign_final_labels env fuel m prios = .ok (r, m') ∧
+      m' = clearExplored m ∧ r.WF ∧ IsRelabel π m' r ∧ r.nodeList = m.nodeList.map π ∧
+      (m.nodeList.map π).Perm m.nodeList ∧
+      (∀ a ∈ m.nodeList, π a ∈ m.nodeList ∧ cls m (π a) = cls m a) ∧
+      (∀ p, ((classNodes m p).map π).Perm (classNodes m p)) := by
+  obtain ⟨fl, hspec, h⟩ := assign_final_labels_ok env hs hm hc
+  obtain ⟨w, rel, nl⟩ := hspec.relabel hm
+  exact ⟨_, _, relabelFun fl, h fuel hf, rfl, w, rel, nl, hspec.perm_nodes hm.node_wf,
+    fun a ha => hspec.maps_cls ha, hspec.perm_class hm.node_wf⟩
+
+/-! ## ORDER INDEPENDENCE (C01): node / adjacency / set iteration orders do not influence `final_labels` -/
+
+section OrderIndep
+variable {g h : Graph}
+
+theorem same_mem (hsame : Same g h) (n : Int) : n ∈ h.nodeList ↔ n ∈ g.nodeList := by
+  have := hsame.nodes.mem_iff (a := n)
+  simpa using this
+
+theorem same_perm_nodes (hsame : Same g h) : g.nodeList.Perm h.nodeList := by
+  have := hsame.nodes; simpa using this.symm
+
+theorem same_attr (hsame : Same g h) (n : Int) (k : String) : h.attr n k = g.attr n k := by
+  by_cases hn : n ∈ g.nodeList
+  · exact hsame.attrs n hn k
+  · have hn' : n ∉ h.nodeList := fun x => hn ((same_mem hsame n).1 x)
+    unfold Graph.attr
+    rw [(Dict.get?_eq_none_iff _ _).2 hn, (Dict.get?_eq_none_iff _ _).2 hn']
+
+theorem same_cls (hsame : Same g h) (a : Int) : cls g a = cls h a := by
+  unfold cls attrV; rw [same_attr hsame]
+
+theorem nbrs_of_not_mem (hg : g.WF) {n : Int} (hn : n ∉ g.nodeList) : g.nbrs n = [] := by
+  unfold Graph.nbrs; rw [hg.adj_get?_eq_none hn]; rfl
+
+theorem same_nbrs (hg : g.WF) (hh : h.WF) (hsame : Same g h) (n : Int) : (g.nbrs n).Perm (h.nbrs n) := by
+  by_cases hn : n ∈ g.nodeList
+  · have := hsame.nbrs n hn; simpa using this.symm
+  · have hn' : n ∉ h.nodeList := fun x => hn ((same_mem hsame n).1 x)
+    rw [nbrs_of_not_mem hg hn, nbrs_of_not_mem hh hn']
+
+theorem same_carries (hsame : Same g h) {k : String} (hc : Carries g k) : Carries h k := by
+  intro a ha
+  rw [same_attr hsame]; exact hc a ((same_mem hsame a).1 ha)
+
+theorem same_classNodes (hsame : Same g h) (p : Val) : (classNodes g p).Perm (classNodes h p) := by
+  unfold classNodes
+  simp only [same_cls hsame]
+  exact (same_perm_nodes hsame).filter _
+
+theorem same_unexp (hsame : Same g h) (fl : Dict Int Int) : sorted (unexp g fl) = sorted (unexp h fl) :=
+  sorted_perm ((same_perm_nodes hsame).filter _)
+
+/-- related loop states: same `final_labels`, same queue, same flag, `labels_by_partition` equal as maps
+(the key order depends on the set iteration order); the graph component is not compared -/
+def RelI (t₁ t₂ : SI) : Prop :=
+  (∀ p, t₁.2.1.get? p = t₂.2.1.get? p) ∧ t₁.2.2.1 = t₂.2.2.1 ∧ t₁.2.2.2.1 = t₂.2.2.2.1 ∧ t₁.2.2.2.2 = t₂.2.2.2.2
+def RelO (s₁ s₂ : SO) : Prop :=
+  (∀ p, s₁.2.1.get? p = s₂.2.1.get? p) ∧ s₁.2.2.1 = s₂.2.2.1 ∧ s₁.2.2.2 = s₂.2.2.2
+
+theorem innerStep_rel (hg : g.WF) (hh : h.WF) (hsame : Same g h) (t₁ t₂ : SI) (hr : RelI t₁ t₂) :
+    StepRel RelI (innerStep g t₁) (innerStep h t₂) := by
+  obtain ⟨g₁, d₁, fl₁, q₁, dn₁⟩ := t₁
+  obtain ⟨g₂, d₂, fl₂, q₂, dn₂⟩ := t₂
+  obtain ⟨hd, hfl, hq, hdn⟩ := hr
+  simp only at hd hfl hq hdn
+  subst hfl hq hdn
+  have hto : ∀ a, travOrder prios.reverse g a (g.nbrs a) = travOrder prios.reverse h a (h.nbrs a) :=
+    fun a => travOrder_congr _ a (same_cls hsame) (same_nbrs hg hh hsame a)
+  unfold innerStep
+  simp only [← same_cls hsame, hto, hd]
+  by_cases hq0 : q₁ = []
+  · simp only [hq0, if_true]
+    exact ⟨hd, rfl, rfl, rfl⟩
+  · simp only [hq0, if_false]
+    by_cases hex : q₁.getLastD 0 ∈ fl₁.keys
+    · simp only [hex, if_true]
+      exact ⟨hd, rfl, rfl, rfl⟩
+    · simp only [hex, if_false]
+      refine ⟨fun p => ?_, rfl, rfl, rfl⟩
+      simp only [Dict.get?_set, hd]
+
+theorem outerStep_rel (hg : g.WF) (hh : h.WF) (hsame : Same g h) (fuel : Nat) (s₁ s₂ : SO) (hr : RelO s₁ s₂) :
+    StepRel RelO (outerStep g fuel s₁) (outerStep h fuel s₂) := by
+  obtain ⟨g₁, d₁, fl₁, dn₁⟩ := s₁
+  obtain ⟨g₂, d₂, fl₂, dn₂⟩ := s₂
+  obtain ⟨hd, hfl, hdn⟩ := hr
+  simp only at hd hfl hdn
+  subst hfl hdn
+  unfold outerStep
+  simp only [← same_unexp hsame]
+  cases hsl : sorted (unexp g fl₁) with
+  | nil => exact ⟨hd, rfl, rfl⟩
+  | cons u0 tl =>
+    simp only
+    have := run_rel RelI (innerStep g) (innerStep h) (innerStep_rel hg hh hsame) fuel
+      (g₁, d₁, fl₁, [u0], false) (g₂, d₂, fl₁, [u0], false) ⟨hd, rfl, rfl, rfl⟩
+    exact ⟨this.1, this.2.1, rfl⟩
+
+theorem specFL_same (hg : g.WF) (hh : h.WF) (hsame : Same g h) (fuel : Nat) {d₁ d₂ : Dict Val (List Int)}
+    (hd : ∀ p, d₁.get? p = d₂.get? p) : specFL g fuel d₁ = specFL h fuel d₂ := by
+  unfold specFL
+  exact (run_rel RelO (outerStep g fuel) (outerStep h fuel) (outerStep_rel hg hh hsame fuel) fuel
+    (clearExplored g, d₁, Dict.empty, false) (clearExplored h, d₂, Dict.empty, false) ⟨hd, rfl, rfl⟩).2.1
+
+theorem labels_by_partition_same {env₁ env₂ : DepEnv} (hs₁ : env₁.SetLawful) (hs₂ : env₂.SetLawful)
+    (hg : g.WF) (hh : h.WF) (hsame : Same g h) (cg : Carries g "partition") {d₁ d₂ : Dict Val (List Int)}
+    (h₁ : Tucan.serialization._labels_by_partition env₁ g = .ok d₁)
+    (h₂ : Tucan.serialization._labels_by_partition env₂ h = .ok d₂) : ∀ p, d₁.get? p = d₂.get? p := by
+  obtain ⟨d₁', e₁, -, k₁, g₁⟩ := labels_by_partition_ok env₁ hs₁ hg.node_wf cg
+  obtain ⟨d₂', e₂, -, k₂, g₂⟩ := labels_by_partition_ok env₂ hs₂ hh.node_wf (same_carries hsame cg)
+  rw [h₁] at e₁; rw [h₂] at e₂
+  simp only [Except.ok.injEq] at e₁ e₂
+  subst e₁ e₂
+  intro p
+  have hk : p ∈ d₁.keys ↔ p ∈ d₂.keys := by
+    rw [k₁, k₂]
+    constructor
+    · rintro ⟨a, ha, rfl⟩; exact ⟨a, (same_mem hsame a).2 ha, (same_cls hsame a).symm⟩
+    · rintro ⟨a, ha, rfl⟩; exact ⟨a, (same_mem hsame a).1 ha, same_cls hsame a⟩
+  by_cases hp : p ∈ d₁.keys
+  · rw [g₁ p hp, g₂ p (hk.1 hp), sortedRev_perm (same_classNodes hsame p)]
+  · rw [(Dict.get?_eq_none_iff _ _).2 hp, (Dict.get?_eq_none_iff _ _).2 (fun x => hp (hk.2 x))]
+
+theorem same_fuelBound (hg : g.WF) (hh : h.WF) (hsame : Same g h) : fuelBound g = fuelBound h := by
+  unfold fuelBound
+  have h1 := (same_perm_nodes hsame).length_eq
+  have h2 : (g.nodeList.map (fun u => (g.nbrs u).length)) = (g.nodeList.map (fun u => (h.nbrs u).length)) :=
+    List.map_congr_left (fun u _ => (same_nbrs hg hh hsame u).length_eq)
+  have h3 := (((same_perm_nodes hsame).map (fun u => (h.nbrs u).length)).sum_eq)
+  rw [h1, h2, h3]
+
+theorem same_clear (hsame : Same g h) : Same (clearExplored g) (clearExplored h) where
+  inj := fun _ _ _ _ e => e
+  nodes := by
+    rw [nodeList_setNodeAttrScalar, nodeList_setNodeAttrScalar]; exact hsame.nodes
+  attrs := fun n hn k => by
+    rw [nodeList_setNodeAttrScalar] at hn
+    have hn' : n ∈ h.nodeList := (same_mem hsame n).2 hn
+    obtain ⟨x, hx⟩ := Dict.exists_get?_of_mem_keys hn
+    obtain ⟨y, hy⟩ := Dict.exists_get?_of_mem_keys hn'
+    simp only [id, attr_setNodeAttrScalar, hx, hy, Option.map_some]
+    rw [same_attr hsame]
+  nbrs := fun n hn => by
+    rw [nodeList_setNodeAttrScalar] at hn
+    simpa using hsame.nbrs n hn
+  eattrs := fun u hu v hv a ha => by
+    rw [nodeList_setNodeAttrScalar] at hu hv
+    simpa using hsame.eattrs u hu v hv a (by simpa using ha)
+
+/-- relabelling two presentations of the same labelled graph with the same injective mapping gives two
+presentations of the same labelled graph -/
+theorem same_relabelCopy (hg : g.WF) (hh : h.WF) (hsame : Same g h) (mapping : Dict Int Int)
+    (inj : ∀ a ∈ g.nodeList, ∀ b ∈ g.nodeList, relabelFun mapping a = relabelFun mapping b → a = b) :
+    Same (g.relabelCopy mapping) (h.relabelCopy mapping) := by
+  have inj' : ∀ a ∈ h.nodeList, ∀ b ∈ h.nodeList, relabelFun mapping a = relabelFun mapping b → a = b :=
+    fun a ha b hb => inj a ((same_mem hsame a).1 ha) b ((same_mem hsame b).1 hb)
+  have rg := isRelabel_relabelCopy hg mapping inj
+  have rh := isRelabel_relabelCopy hh mapping inj'
+  have nlg := nodeList_relabelCopy hg mapping inj
+  have nlh := nodeList_relabelCopy hh mapping inj'
+  refine ⟨fun _ _ _ _ e => e, ?_, ?_, ?_, ?_⟩
+  · rw [nlg, nlh, List.map_id]; exact ((same_perm_nodes hsame).map _).symm
+  · intro n hn k
+    rw [nlg] at hn
+    obtain ⟨a, ha, rfl⟩ := List.mem_map.1 hn
+    show (h.relabelCopy mapping).attr (relabelFun mapping a) k = _
+    rw [rg.attrs a ha, rh.attrs a ((same_mem hsame a).2 ha), same_attr hsame]
+  · intro n hn
+    rw [nlg] at hn
+    obtain ⟨a, ha, rfl⟩ := List.mem_map.1 hn
+    rw [List.map_id]
+    show ((h.relabelCopy mapping).nbrs (relabelFun mapping a)).Perm _
+    exact (rh.nbrs a ((same_mem hsame a).2 ha)).trans
+      (((same_nbrs hg hh hsame a).symm.map _).trans (rg.nbrs a ha).symm)
+  · intro u hu v hv A hA
+    rw [nlg] at hu hv
+    obtain ⟨a, ha, rfl⟩ := List.mem_map.1 hu
+    obtain ⟨b, hb, rfl⟩ := List.mem_map.1 hv
+    rw [edgeAttrs_relabelCopy hg mapping inj ha hb] at hA
+    obtain ⟨B, hB, hAB⟩ := hsame.eattrs a ha b hb A hA
+    refine ⟨B, ?_, hAB⟩
+    show (h.relabelCopy mapping).edgeAttrs (relabelFun mapping a) (relabelFun mapping b) = _
+    rw [edgeAttrs_relabelCopy hh mapping inj' ((same_mem hsame a).2 ha) ((same_mem hsame b).2 hb)]
+    exact hB
+
+/-- ORDER INDEPENDENCE (C01): two presentations `g`, `h` of the same labelled graph (different node,
+adjacency and attribute iteration orders), processed under possibly different `set` iteration orders and
+with different (sufficient) amounts of fuel, get literally the same `final_labels` dict; hence the two
+returned graphs are again presentations of one labelled graph. -/
+theorem assign_final_labels_order_independent {env₁ env₂ : DepEnv} (hs₁ : env₁.SetLawful) (hs₂ : env₂.SetLawful)
+    (hg : g.WF) (hh : h.WF) (hsame : Same g h) (cg : Carries g "partition") :
+    ∃ fl, FinalLabelsSpec g fl ∧ FinalLabelsSpec h fl ∧
+      (∀ fuel, fuel ≥ fuelBound g → Tucan.serialization._assign_final_labels env₁ fuel g prios =
+        .ok ((clearExplored g).relabelCopy fl, clearExplored g)) ∧
+      (∀ fuel, fuel ≥ fuelBound h → Tucan.serialization._assign_final_labels env₂ fuel h prios =
+        .ok ((clearExplored h).relabelCopy fl, clearExplored h)) ∧
+      Same ((clearExplored g).relabelCopy fl) ((clearExplored h).relabelCopy fl) := by
+  have ch := same_carries hsame cg
+  obtain ⟨d₁, hd₁, -⟩ := labels_by_partition_ok env₁ hs₁ hg.node_wf cg
+  obtain ⟨d₂, hd₂, -⟩ := labels_by_partition_ok env₂ hs₂ hh.node_wf ch
+  have hb := same_fuelBound hg hh hsame
+  obtain ⟨a1, a2⟩ := assign_final_labels_spec env₁ hs₁ (fuelBound g) hg cg (le_refl _) hd₁
+  obtain ⟨b1, b2⟩ := assign_final_labels_spec env₂ hs₂ (fuelBound g) hh ch (by rw [hb]) hd₂
+  have e : specFL g (fuelBound g) d₁ = specFL h (fuelBound g) d₂ :=
+    specFL_same hg hh hsame _ (labels_by_partition_same hs₁ hs₂ hg hh hsame cg hd₁ hd₂)
+  rw [← e] at b1 b2
+  refine ⟨_, a2, b2, fun fuel hf => assign_final_labels_fuel_mono env₁ hf g prios a1,
+    fun fuel hf => assign_final_labels_fuel_mono env₂ (by rw [hb]; exact hf) h prios b1, ?_⟩
+  refine same_relabelCopy (WF_setNodeAttrScalar hg _ _) (WF_setNodeAttrScalar hh _ _) (same_clear hsame) _ ?_
+  rw [nodeList_setNodeAttrScalar]; exact a2.injOn
+
+end OrderIndep
+
+/-! ## lifting to the first line of `serialize_molecule` -/
+
+/-- `serialize_molecule` depends on its argument and on the fuel only through the result of
+`_assign_final_labels(m)` -/
+theorem serialize_molecule_congr (env : DepEnv) {fuel₁ fuel₂ : Nat} {m₁ m₂ : Graph} {x : M (Graph × Graph)}
+    (h₁ : Tucan.serialization._assign_final_labels env fuel₁ m₁ prios = x)
+    (h₂ : Tucan.serialization._assign_final_labels env fuel₂ m₂ prios = x) :
+    Tucan.serialization.serialize_molecule env fuel₁ m₁ = Tucan.serialization.serialize_molecule env fuel₂ m₂ := by
+  simp only [Tucan.serialization.serialize_molecule]
+  rw [h₁, h₂]
+
+/-- with enough fuel the result of `serialize_molecule` (string, final state of the argument, or exception
+raised by the later steps) does not depend on the fuel -/
+theorem serialize_molecule_fuel_indep (env : DepEnv) (hs : env.SetLawful) {m : Graph} (hm : m.WF)
+    (hc : Carries m "partition") {fuel₁ fuel₂ : Nat} (h₁ : fuel₁ ≥ fuelBound m) (h₂ : fuel₂ ≥ fuelBound m) :
+    Tucan.serialization.serialize_molecule env fuel₁ m = Tucan.serialization.serialize_molecule env fuel₂ m := by
+  obtain ⟨fl, -, h⟩ := assign_final_labels_ok env hs hm hc
+  exact serialize_molecule_congr env (h fuel₁ h₁) (h fuel₂ h₂)
+
+/-- the first line of `serialize_molecule` succeeds: the call equals the rest of the function run on the
+relabelled graph `r = relabel_nodes(m', final_labels)`, where `m'` is the flag-cleared argument -/
+theorem serialize_molecule_first_line (env : DepEnv) (hs : env.SetLawful) (fuel : Nat) {m : Graph} (hm : m.WF)
+    (hc : Carries m "partition") (hf : fuel ≥ fuelBound m) :
+    ∃ fl, FinalLabelsSpec m fl ∧
+      Tucan.serialization._assign_final_labels env fuel m prios =
+        .ok ((clearExplored m).relabelCopy fl, clearExplored m) ∧
+      ((clearExplored m).relabelCopy fl).WF ∧
+      IsRelabel (relabelFun fl) (clearExplored m) ((clearExplored m).relabelCopy fl) := by
+  obtain ⟨fl, hspec, h⟩ := assign_final_labels_ok env hs hm hc
+  obtain ⟨w, rel, -⟩ := hspec.relabel hm
+  exact ⟨fl, hspec, h fuel hf, w, rel⟩
+
+
+/-! ## the precondition on `partition` is exact -/
+
+theorem exists_first {α : Type} (p : α → Prop) (l : List α) (h : ∃ a ∈ l, p a) :
+    ∃ pre a post, l = pre ++ a :: post ∧ (∀ b ∈ pre, ¬ p b) ∧ p a := by
+  classical
+  induction l with
+  | nil => simp at h
+  | cons x l ih =>
+    by_cases hx : p x
+    · exact ⟨[], x, l, rfl, by simp, hx⟩
+    · obtain ⟨a, ha, hpa⟩ := h
+      have : a ∈ l := by
+        rcases List.mem_cons.1 ha with rfl | h'
+        · exact absurd hpa hx
+        · exact h'
+      obtain ⟨pre, a', post, e, h1, h2⟩ := ih ⟨a, this, hpa⟩
+      refine ⟨x :: pre, a', post, by rw [e]; rfl, ?_, h2⟩
+      intro b hb
+      rcases List.mem_cons.1 hb with rfl | hb
+      · exact hx
+      · exact h1 b hb
+
+/-- a `for` loop whose body raises at the first element violating `p` -/
+theorem forIn_error {σ α : Type} (body : α → σ → M (ForInStep σ)) (step : α → σ → σ) (P : σ → Prop) (e : Err)
+    (pre : List α) (a : α) (post : List α) (s : σ)
+    (hpre : ∀ b ∈ pre, ∀ s, P s → body b s = .ok (.yield (step b s)) ∧ P (step b s)) (hs : P s)
+    (ha : ∀ s, P s → body a s = .error e) : forIn (pre ++ a :: post) s body = .error e := by
+  induction pre generalizing s with
+  | nil => rw [List.nil_append, List.forIn_cons, ha s hs]; rfl
+  | cons b pre ih =>
+    obtain ⟨h1, h2⟩ := hpre b (by simp) s hs
+    rw [List.cons_append, List.forIn_cons, h1]
+    simp only [ok_bind]
+    exact ih _ (fun c hc => hpre c (by simp [hc])) h2
+
+/-- a node without `partition` attribute makes `_labels_by_partition` raise `KeyError` (`m.nodes[a][PARTITION]`) -/
+theorem labels_by_partition_keyError (env : DepEnv) (hs : env.SetLawful) {m : Graph} (hm : m.node.WF)
+    (hnc : ¬ Carries m "partition") :
+    Tucan.serialization._labels_by_partition env m = .error Err.key := by
+  have hex : ∃ a ∈ m.nodeList, ¬ (m.attr a "partition").isSome = true := by
+    by_contra hcon
+    exact hnc (fun a ha => by by_contra h; exact hcon ⟨a, ha, h⟩)
+  obtain ⟨pre, a, post, hsplit, hpre, ha⟩ := exists_first _ _ hex
+  unfold Tucan.serialization._labels_by_partition
+  rw [listComp_ok _ _ (fun x => some x.2)]
+  swap
+  · rintro ⟨k, v⟩ _; rfl
+  simp only [ok_bind]
+  rw [listComp_ok _ _ (fun p => some (p, ([] : List Int)))]
+  swap
+  · intro p _; rfl
+  simp only [ok_bind, pyIter_list, nodesDataKey_snd hm, Contracts.Partition.filterMap_some, pyIter_graph]
+  have hperm := hs (mkSet (sorted (m.nodeList.map (attrV m "partition")))).elems
+  generalize env.setOrder (mkSet (sorted (m.nodeList.map (attrV m "partition")))).elems = ord at hperm ⊢
+  have hmem : ∀ p, p ∈ ord ↔ ∃ a ∈ m.nodeList, cls m a = p := by
+    intro p
+    rw [hperm.mem_iff]
+    simp [mkSet]
+  have hnd : ord.Nodup := hperm.nodup_iff.2 (List.nodup_dedup _)
+  have hkeys0 : ((ord.map (fun p => (p, ([] : List Int)))).map Prod.fst) = ord := by
+    simp [List.map_map, Function.comp_def]
+  have hd0 : Dict.ofPairs (ord.map (fun p => (p, ([] : List Int)))) = ⟨ord.map (fun p => (p, ([] : List Int)))⟩ :=
+    Dict.ofPairs_of_nodup _ (by rw [hkeys0]; exact hnd)
+  rw [hd0]
+  generalize hd : (⟨ord.map (fun p => (p, ([] : List Int)))⟩ : Dict Val (List Int)) = d0
+  have hk0 : d0.keys = ord := by rw [← hd]; exact hkeys0
+  have hamem : a ∈ m.nodeList := by rw [hsplit]; simp
+  rw [hsplit, forIn_error _ (fun a d => d.set (cls m a) ((d.get? (cls m a)).getD [] ++ [a]))
+    (fun d => ∀ a ∈ m.nodeList, cls m a ∈ d.keys) Err.key pre a post d0]
+  · rfl
+  · intro b hb d hP
+    have hbm : b ∈ m.nodeList := by rw [hsplit]; simp [hb]
+    have hcb : (m.attr b "partition").isSome = true := by
+      by_contra h; exact hpre b hb h
+    obtain ⟨x, hx1, hx2⟩ := Contracts.Partition.nodeAttrs_getItem m b "partition" hcb
+    obtain ⟨old, hold⟩ := Dict.exists_get?_of_mem_keys (hP b hbm)
+    simp only [hx1, hx2, ok_bind, getItem_valdict, hold, setItem_dict, pyAdd_list, pure_eq_ok, Option.getD_some,
+      true_and]
+    intro c hc
+    rw [Dict.mem_keys_set]; exact Or.inr (hP c hc)
+  · intro b hb; rw [hk0, hmem]; exact ⟨b, hb, rfl⟩
+  · intro d _
+    obtain ⟨x, hx⟩ := Dict.exists_get?_of_mem_keys hamem
+    have hnone : x.get? "partition" = Option.none := by
+      unfold Graph.attr at ha
+      rw [hx] at ha
+      simp only [Option.bind_some] at ha
+      cases hxx : x.get? "partition" with
+      | none => rfl
+      | some v => rw [hxx] at ha; exact absurd rfl ha
+    have h1 : m.nodeAttrs a = .ok x := by simp [Graph.nodeAttrs, hx]
+    rw [h1]
+    simp only [ok_bind]
+    rw [getItem_attrs, hnone]
+    rfl
+
+theorem assign_final_labels_keyError (env : DepEnv) (hs : env.SetLawful) (fuel : Nat) {m : Graph} (hm : m.node.WF)
+    (hnc : ¬ Carries m "partition") (pr : List (Val → Val → Bool)) :
+    Tucan.serialization._assign_final_labels env fuel m pr = .error Err.key := by
+  unfold Tucan.serialization._assign_final_labels
+  simp only [labels_by_partition_keyError env hs hm hnc, error_bind]
+
+/-- exactness of the precondition: for a well-formed graph and enough fuel, `_assign_final_labels` succeeds
+if and only if every node carries a `partition` attribute (of any value: the model compares all values) -/
+theorem assign_final_labels_total_iff (env : DepEnv) (hs : env.SetLawful) (fuel : Nat) {m : Graph} (hm : m.WF)
+    (hf : fuel ≥ fuelBound m) :
+    (∃ r m', Tucan.serialization._assign_final_labels env fuel m prios = .ok (r, m')) ↔ Carries m "partition" := by
+  constructor
+  · rintro ⟨r, m', h⟩
+    by_contra hnc
+    rw [assign_final_labels_keyError env hs fuel hm.node_wf hnc] at h
+    cases h
+  · exact fun hc => assign_final_labels_total env hs fuel hm hc hf
+
+
 end Contracts.FinalLabels
+
+#print axioms Contracts.FinalLabels.labels_by_partition_ok
+#print axioms Contracts.FinalLabels.assign_final_labels_frame
+#print axioms Contracts.FinalLabels.serialize_molecule_frame
+#print axioms Contracts.FinalLabels.serialize_molecule_repeat
+#print axioms Contracts.FinalLabels.assign_final_labels_explored_irrelevant
+#print axioms Contracts.FinalLabels.serialize_molecule_explored_irrelevant
+#print axioms Contracts.FinalLabels.assign_final_labels_spec
+#print axioms Contracts.FinalLabels.assign_final_labels_fuel_mono
+#print axioms Contracts.FinalLabels.assign_final_labels_ok
+#print axioms Contracts.FinalLabels.assign_final_labels_total
+#print axioms Contracts.FinalLabels.assign_final_labels_relabel
+#print axioms Contracts.FinalLabels.assign_final_labels_order_independent
+#print axioms Contracts.FinalLabels.serialize_molecule_fuel_indep
+#print axioms Contracts.FinalLabels.serialize_molecule_first_line
+#print axioms Contracts.FinalLabels.assign_final_labels_total_iff
